@@ -42,6 +42,24 @@ def render(lang, items, **kw):
     return Renderer(lang, **kw).render(items)
 
 
+class BoundedGen(skel.Gen):
+    """the shared generator with a node budget per top-level function / method: at depth 12 (thorough tier) its
+    branching makes megabyte files whose lint + judging takes minutes each; children are generated depth first, left
+    to right, so the budget keeps a deepest path of full depth and cuts the width.  Not used up to depth 8."""
+    budget = 150
+
+    def fn(self, depth, nested=False, method=False):
+        if not nested:
+            self._left = self.budget
+        return super().fn(depth, nested=nested, method=method)
+
+    def stmt(self, depth):
+        self._left = getattr(self, "_left", self.budget) - 1
+        if self._left <= 0:
+            return ["Simple", []]
+        return super().stmt(depth)
+
+
 def _lang_ok(lang, items):
     import copy
     plain = copy.deepcopy(items)
@@ -73,15 +91,16 @@ MSG_RE = re.compile(r"^Function '(.*)' has excessive nesting depth \((\d+)\)$", 
 def gen_cases(seed: int, n_files: int, max_depth: int, cli_cap: int = 10 ** 9):
     cases = []
     n_cli = 0
+    Gen = skel.Gen if max_depth <= 8 else BoundedGen
     for i in range(n_files):
         r = rng_for(seed, PROP, i)
         mode = r.choice(["common", "common", "py", "ts", "rs", "js"])
         lk = "ts" if mode == "js" else mode
         if mode == "common":
-            g = skel.Gen(r, skel.COMMON, ["FDef"], max_depth=max_depth, else_single_if_ok=r.random() < 0.3)
+            g = Gen(r, skel.COMMON, ["FDef"], max_depth=max_depth, else_single_if_ok=r.random() < 0.3)
             langs = ["py", "ts", "js", "rs"]
         else:
-            g = skel.Gen(r, skel.LANG_KINDS[lk], skel.LANG_FKINDS[lk], max_depth=max_depth,
+            g = Gen(r, skel.LANG_KINDS[lk], skel.LANG_FKINDS[lk], max_depth=max_depth,
                          else_single_if_ok=(lk != "py"), curried=(lk == "ts"), nobrace=(lk == "ts"))
             if lk == "ts":
                 g.max_handlers = 1
